@@ -490,6 +490,70 @@ fn c20_timestamp_to_epoch() {
     }
 }
 
+/// `mktime` = `timestamp_to_epoch` o jiff o `array_to_datetime`: the decision "whole or fractional"
+/// is taken in `mktime` itself from `Timestamp::subsec_nanosecond`, which jiff documents as
+/// carrying the SIGN of the timestamp (negative before 1970).  From the property ("`gmtime |
+/// mktime` returns the original instant, to the microsecond for fractional times"): an integer
+/// result is only allowed when the instant has no microsecond fraction, on either side of 1970.
+/// `array_to_datetime` (under its own obligations O-C20-array / -seconds) and jiff's `to_zoned`
+/// are replaced by constant stubs - `Zoned::new` on constants alone costs > 200 s under CBMC, so
+/// the `Zoned` is an all-zero placeholder that is never read (`Zoned::timestamp` is stubbed) and
+/// has no destructor (time-zone tag 0).  jiff's accessors are replaced by symbolic ghost values tied by their documented relation
+/// (assumed contract of the dependency): sign(ns) agrees with sign(s), |ns| < 10^9,
+/// as_microsecond = s * 10^6 + ns / 1000 (truncating).
+static mut GHOST_NS: i32 = 0;
+fn subsec_ns_stub(_t: jiff::Timestamp) -> i32 {
+    unsafe { GHOST_NS }
+}
+fn to_zoned_stub(_dt: jiff::civil::DateTime, tz: jiff::tz::TimeZone) -> Result<jiff::Zoned, jiff::Error> {
+    core::mem::forget(tz);
+    // never read, no destructor (see above)
+    Ok(unsafe { core::mem::zeroed::<jiff::Zoned>() })
+}
+fn zoned_ts_stub(_z: &jiff::Zoned) -> jiff::Timestamp {
+    jiff::Timestamp::UNIX_EPOCH
+}
+fn a2d_stub<V: ValT>(_v: &[V]) -> Option<Result<jiff::civil::DateTime, jiff::Error>> {
+    Some(Ok(jiff::civil::DateTime::constant(2000, 1, 1, 0, 0, 0, 0)))
+}
+#[kani::proof]
+#[kani::unwind(2)]
+#[kani::stub(crate::time::array_to_datetime, a2d_stub)]
+#[kani::stub(jiff::civil::DateTime::to_zoned, to_zoned_stub)]
+#[kani::stub(jiff::Zoned::timestamp, zoned_ts_stub)]
+#[kani::stub(jiff::Timestamp::subsec_nanosecond, subsec_ns_stub)]
+#[kani::stub(jiff::Timestamp::as_second, as_second_stub)]
+#[kani::stub(jiff::Timestamp::as_microsecond, as_microsecond_stub)]
+#[kani::stub(alloc::fmt::format, fmt_stub)]
+fn c20_mktime_fraction() {
+    let (s, ns): (i64, i32) = kani::any();
+    kani::assume(-377705023201 <= s && s <= 253402207200);
+    kani::assume(-1_000_000_000 < ns && ns < 1_000_000_000);
+    kani::assume(!(s > 0 && ns < 0) && !(s < 0 && ns > 0));
+    let us = s * 1_000_000 + (ns / 1000) as i64;
+    unsafe {
+        GHOST_TS = (s, us);
+        GHOST_NS = ns;
+    }
+    static ARR: [AnyVal; 0] = [];
+    let v = AnyVal { is_int: false, int: None, flt: None, made_from: 0, arr: Some(&ARR) };
+    kani::cover!(s == 0 && ns == -500_000_000);
+    kani::cover!(s == -1 && ns == -500_000_000);
+    kani::cover!(s == 1 && ns == 500_000_000);
+    kani::cover!(ns == 0);
+    let r = MD::new(crate::time::mktime(&v));
+    match &*r {
+        Ok(out) => match out.made_from {
+            // an integer answer must be the instant itself
+            2 => assert!(out.int.unwrap() as i128 * 1_000_000 == us as i128),
+            // a fractional answer: its value is microseconds / 10^6 by O-C20-back
+            4 => (),
+            _ => assert!(false),
+        },
+        Err(_) => assert!(false),
+    }
+}
+
 static mut GHOST_DT: Option<(i16, i8, i8, i8, i8, i8, i32)> = None;
 fn dt_new_stub(y: i16, mo: i8, d: i8, h: i8, mi: i8, s: i8, ns: i32) -> Result<jiff::civil::DateTime, jiff::Error> {
     unsafe { GHOST_DT = Some((y, mo, d, h, mi, s, ns)) };
